@@ -65,6 +65,9 @@ structure Sheet where
   grid : Bool
   colAt : Int → ColView
   rowAt : Int → RowView
+  /-- `Worksheet.links`: (row, column, target) — no modelled operation creates one, but
+      `delete_sheet` and its undo carry them along (finding F01d) -/
+  links : List (Int × Int × String) := []
 
 /-- `types.rs::DefinedName` (the formula is an opaque text here) -/
 structure DefName where
@@ -114,6 +117,7 @@ inductive Diff where
   | setRowHeight (sheet : Nat) (row : Int) (old new : Int)
   | setColumnHidden (sheet : Nat) (column : Int) (old new : Bool)
   | setRowHidden (sheet : Nat) (row : Int) (old new : Bool)
+  | moveRows (sheet : Nat) (row : Int) (rowCount : Int) (delta : Int)
 
 /-- the modelled `pub fn`s of `UserModel` -/
 inductive Op where
@@ -133,6 +137,7 @@ inductive Op where
   | setRowsHeight (sheet : Nat) (r1 r2 : Int) (height : Int)
   | setColumnsHidden (sheet : Nat) (c1 c2 : Int) (hidden : Bool)
   | setRowsHidden (sheet : Nat) (r1 r2 : Int) (hidden : Bool)
+  | moveRows (sheet : Nat) (row : Int) (rowCount : Int) (delta : Int)
   deriving Repr
 
 abbrev Out := OpOut Book Diff Err
@@ -153,7 +158,8 @@ def setSheet (b : Book) (i : Nat) (s : Sheet) : Book := { b with sheets := b.she
 /-- models `new_empty.rs::new_empty_worksheet` -/
 def emptySheet (name : String) (id : Nat) : Sheet :=
   { name := name, id := id, state := .visible, color := "", frozenRows := 0, frozenCols := 0,
-    grid := true, colAt := fun _ => ColView.default, rowAt := fun _ => RowView.default }
+    grid := true, colAt := fun _ => ColView.default, rowAt := fun _ => RowView.default,
+    links := [] }
 
 /-! ### model-level functions (`model.rs`, `new_empty.rs`, `worksheet.rs`) -/
 
@@ -288,13 +294,15 @@ def mNewDefinedName (env : Env) (b : Book) (name : String) (scope : Nat) (formul
     then .error .duplicateName
     else .ok { b with names := b.names ++ [⟨name, formula, some sh.id⟩] }
 
-/-- models `model.rs::get_column_width` → `worksheet.rs::get_column_width` (0 when hidden) -/
+/-- models `worksheet.rs::get_actual_column_width` (the width the column has, hidden or not; the
+    repaired `set_columns_width` records this one — the pinned tree recorded `get_column_width`,
+    which is 0 for a hidden column: fixed finding F01c) -/
 def mGetColumnWidth (b : Book) (sheet : Nat) (c : Int) : Except Err Int :=
   match getSheet b sheet with
   | .error e => .error e
   | .ok s =>
     if !validCol c then .error .invalidColumn
-    else .ok (if (s.colAt c).hidden then 0 else (s.colAt c).width)
+    else .ok (s.colAt c).width
 
 /-- models `model.rs::set_column_width` → `worksheet.rs::set_column_width`
     (`set_column_width_and_style` with the column's current hidden flag and style) -/
@@ -321,13 +329,13 @@ def mSetColumnHidden (b : Book) (sheet : Nat) (c : Int) (h : Bool) : Except Err 
     if !validCol c then .error .invalidColumn
     else .ok (setSheet b sheet { s with colAt := upd s.colAt c { s.colAt c with hidden := h } })
 
-/-- models `model.rs::get_row_height` → `worksheet.rs::row_height` (0 when hidden) -/
+/-- models `worksheet.rs::get_actual_row_height` (recorded by the repaired `set_rows_height`) -/
 def mGetRowHeight (b : Book) (sheet : Nat) (r : Int) : Except Err Int :=
   match getSheet b sheet with
   | .error e => .error e
   | .ok s =>
     if !validRow r then .error .invalidRow
-    else .ok (if (s.rowAt r).hidden then 0 else (s.rowAt r).height)
+    else .ok (s.rowAt r).height
 
 /-- models `model.rs::set_row_height` → `worksheet.rs::set_row_height` -/
 def mSetRowHeight (b : Book) (sheet : Nat) (r h : Int) : Except Err Book :=
@@ -352,6 +360,44 @@ def mSetRowHidden (b : Book) (sheet : Nat) (r : Int) (h : Bool) : Except Err Boo
     if !validRow r then .error .invalidRow
     else .ok (setSheet b sheet { s with rowAt := upd s.rowAt r { s.rowAt r with hidden := h } })
 
+/-- the row-descriptor part of `actions.rs::move_row_unchecked`: row `row` goes to `row + delta`,
+    the rows in between shift by one towards the vacated place; `rowSrc` says which old row ends up
+    at position `x` -/
+def rowSrc (row delta x : Int) : Int :=
+  if x = row + delta then row
+  else if 0 < delta ∧ row ≤ x ∧ x < row + delta then x + 1
+  else if delta < 0 ∧ row + delta < x ∧ x ≤ row then x - 1
+  else x
+
+def moveRow1 (f : Int → RowView) (row delta : Int) : Int → RowView := fun x => f (rowSrc row delta x)
+
+/-- the loop of `actions.rs::move_rows_action`: `n` rows starting at `row`, moved one by one —
+    last row first when moving down (`.rev()`), first row first when moving up -/
+def moveRowsLoop (delta : Int) : Nat → Int → (Int → RowView) → (Int → RowView)
+  | 0, _, f => f
+  | n + 1, row, f =>
+    if 0 < delta then moveRowsLoop delta n row (moveRow1 f (row + n) delta)
+    else moveRowsLoop delta n (row + 1) (moveRow1 f row delta)
+
+/-- models `actions.rs::move_rows_action` on the row attributes (no cells in this model, so
+    `can_move_rows_action` — which only looks at array formulas — holds) -/
+def mMoveRows (b : Book) (sheet : Nat) (row count delta : Int) : Except Err Book :=
+  if count ≤ 0 ∨ delta = 0 then .ok b
+  else if !validRow (row + delta) || !validRow (row + count - 1 + delta) then .error .invalidRow
+  else if !validRow row || !validRow (row + count - 1) then .error .invalidRow
+  else
+    match getSheet b sheet with
+    | .error e => .error e
+    | .ok s => .ok (setSheet b sheet { s with rowAt := moveRowsLoop delta count.toNat row s.rowAt })
+
+/-- the scan of `common.rs::move_rows_action` that skips hidden rows in the landing zone:
+    `n` rows starting at `r`; `is_row_hidden` fails on a row outside the grid -/
+def hiddenAdjust (s : Sheet) (step : Int) : Nat → Int → Int → Except Err Int
+  | 0, _, acc => .ok acc
+  | n + 1, r, acc =>
+    if !validRow r then .error .invalidRow
+    else hiddenAdjust s step n (r + 1) (if (s.rowAt r).hidden then acc + step else acc)
+
 /-! ### replay of one diff (`undo_redo.rs`) -/
 
 /-- models one arm of `apply_diff_list` -/
@@ -372,6 +418,7 @@ def fwd1 (env : Env) (b : Book) : Diff → Except Err Book
   | .setRowHeight sheet r _ new => mSetRowHeight b sheet r new
   | .setColumnHidden sheet c _ new => mSetColumnHidden b sheet c new
   | .setRowHidden sheet r _ new => mSetRowHidden b sheet r new
+  | .moveRows sheet row count delta => mMoveRows b sheet row count delta
 
 /-- models one arm of `apply_undo_diff_list` -/
 def back1 (env : Env) (b : Book) : Diff → Except Err Book
@@ -388,6 +435,7 @@ def back1 (env : Env) (b : Book) : Diff → Except Err Book
   | .deleteSheet i old =>
     -- `insert_sheet(name, index, Some(sheet_id))`, then the fields the arm copies back:
     -- rows, cols, show_grid_lines, frozen_columns, frozen_rows, state, color
+    -- (NOT `links` and `conditional_formatting`: finding F01d)
     match mInsertSheet env b old.name i (some old.id) with
     | .error e => .error e
     | .ok b1 =>
@@ -404,6 +452,8 @@ def back1 (env : Env) (b : Book) : Diff → Except Err Book
   | .setRowHeight sheet r old _ => mSetRowHeight b sheet r old
   | .setColumnHidden sheet c old _ => mSetColumnHidden b sheet c old
   | .setRowHidden sheet r old _ => mSetRowHidden b sheet r old
+  -- `move_rows_action(sheet, row + delta, row_count, -delta)` at the Model level (no hidden-row scan)
+  | .moveRows sheet row count delta => mMoveRows b sheet (row + delta) count (-delta)
 
 /-- the loop of `apply_diff_list`: front to back, `?` stops at the first error -/
 def foldDiffs (f : Book → Diff → Except Err Book) : Book → List Diff → Applied Book
@@ -636,6 +686,26 @@ def setRowsHidden (b : Book) (sheet : Nat) (r1 r2 : Int) (h : Bool) : Out :=
   | some e => fail b e
   | none => ofLoop (rowsHiddenLoop sheet h (rangeCount r1 r2) r1 b [])
 
+/-- the effective delta: `for r in row+count..=row+count+delta` (down) / `for r in row+delta..row` (up) -/
+def moveScan (s : Sheet) (row count delta : Int) : Except Err Int :=
+  if 0 < delta then hiddenAdjust s 1 (delta + 1).toNat (row + count) delta
+  else hiddenAdjust s (-1) (-delta).toNat (row + delta) delta
+
+/-- models `common.rs::move_rows_action`: the delta is re-computed from the state (hidden rows in
+    the landing zone are skipped) and THAT effective delta is recorded in the diff -/
+def moveRows (b : Book) (sheet : Nat) (row count delta : Int) : Out :=
+  if delta = 0 ∨ count ≤ 0 then ⟨b, none, none⟩
+  else
+    match getSheet b sheet with
+    | .error e => fail b e
+    | .ok s =>
+      match moveScan s row count delta with
+      | .error e => fail b e
+      | .ok nd =>
+        match mMoveRows b sheet row count nd with
+        | .error e => fail b e
+        | .ok b' => done b' [.moveRows sheet row count nd]
+
 def doOp (env : Env) (b : Book) : Op → Out
   | .setName n => setName b n
   | .setTimezone tz => setTimezone env b tz
@@ -653,6 +723,7 @@ def doOp (env : Env) (b : Book) : Op → Out
   | .setRowsHeight s r1 r2 h => setRowsHeight b s r1 r2 h
   | .setColumnsHidden s c1 c2 h => setColumnsHidden b s c1 c2 h
   | .setRowsHidden s r1 r2 h => setRowsHidden b s r1 r2 h
+  | .moveRows s r n d => moveRows b s r n d
 
 /-- the concrete system -/
 def sys (env : Env) : Sys Book Diff Op Err :=
